@@ -8,7 +8,8 @@ class StaticResult:
     pass
 
 
-def solve(r, fit="dlite", method=None, allow_negatives=False, pressures=True, ignore_four=False, reuse=None):
+def solve(r, fit="dlite", method=None, allow_negatives=False, pressures=True, ignore_four=False, reuse=None,
+          angle_limit=None):
     """reuse: a previous StaticResult of the SAME mesh objects: the frame and the ForSys object are kept (the vertices may
     have been moved in place since), everything is built and solved again"""
     import forsys as fs
@@ -25,7 +26,8 @@ def solve(r, fit="dlite", method=None, allow_negatives=False, pressures=True, ig
     pmap, inv = scen.physical_maps(r)
     cinv = {v: k for k, v in r.cmap.items()}
     out.keys = [pmap.get(tuple(b.get_vertices_ids())) for b in fr.internal_big_edges]
-    solver.build_force_matrix(when=0, circle_fit_method=fit, metadata={"ignore_four": ignore_four})
+    kwb = {} if angle_limit is None else {"angle_limit": angle_limit}
+    solver.build_force_matrix(when=0, circle_fit_method=fit, metadata={"ignore_four": ignore_four}, **kwb)
     fm = solver.force_matrices[0]
     out.fm = fm
     cols = [pmap.get(tuple(p)) for p in fm.big_edges_to_use]
